@@ -122,7 +122,7 @@ def matrix(names):
 
 def targets(names):
     """every seed against its TARGET check only, each in its own scratch worktree (parallel): regression of the catches"""
-    names = names or sorted(n for n in os.listdir(os.path.join(VERIF, "seeded")) if os.path.isdir(os.path.join(VERIF, "seeded", n)))
+    names = names or sorted(n for n in os.listdir(os.path.join(VERIF, "seeded")) if os.path.exists(os.path.join(VERIF, "seeded", n, "meta.json")))
 
     def one(name):
         d = os.path.join(VERIF, "seeded", name)
